@@ -1,6 +1,7 @@
 package gofakes3
 
 import (
+	"context"
 	"encoding/base64"
 	"encoding/hex"
 	"encoding/xml"
@@ -128,8 +129,21 @@ func (g *GoFakeS3) hostBucketMiddleware(handler http.Handler) http.Handler {
 		}
 		g.log.Print(LogInfo, p, "=>", rq.URL)
 
-		handler.ServeHTTP(w, rq)
+		handler.ServeHTTP(w, withHostBucket(rq))
 	})
+}
+
+// hostBucketCtxKey marks a request whose bucket was taken from the Host header
+// by one of the host bucket middlewares.
+type hostBucketCtxKey struct{}
+
+func withHostBucket(rq *http.Request) *http.Request {
+	return rq.WithContext(context.WithValue(rq.Context(), hostBucketCtxKey{}, true))
+}
+
+func isHostBucketRequest(rq *http.Request) bool {
+	v, _ := rq.Context().Value(hostBucketCtxKey{}).(bool)
+	return v
 }
 
 // hostBucketBaseMiddleware forces the server to use VirtualHost-style bucket URLs:
@@ -167,7 +181,7 @@ func (g *GoFakeS3) hostBucketBaseMiddleware(handler http.Handler) http.Handler {
 		}
 		g.log.Print(LogInfo, p, "=>", rq.URL)
 
-		handler.ServeHTTP(w, rq)
+		handler.ServeHTTP(w, withHostBucket(rq))
 	})
 }
 
@@ -975,7 +989,7 @@ func (g *GoFakeS3) completeMultipartUpload(bucket, object string, uploadID Uploa
 	}
 
 	var location string
-	if g.hostBucket {
+	if isHostBucketRequest(r) {
 		location = fmt.Sprintf("%s://%s/%s", protocol, r.Host, object)
 	} else {
 		location = fmt.Sprintf("%s://%s/%s/%s", protocol, r.Host, bucket, object)
